@@ -257,8 +257,8 @@ def cli_main():
             status, state = dfu_get_status(dev)
 
         if status != STATUS_OK:
-            print('error erasing page:')
-            print(STATUS_DESCRIPTION[status])
+            print()
+            raise SystemExit('error erasing page 0x{:08x}: {}'.format(addr, STATUS_DESCRIPTION[status]))
 
     print()
 
@@ -288,8 +288,8 @@ def cli_main():
             status, state = dfu_get_status(dev)
 
         if status != STATUS_OK:
-            print('error writing page:')
-            print(STATUS_DESCRIPTION[status])
+            print()
+            raise SystemExit('error writing page 0x{:08x}: {}'.format(addr, STATUS_DESCRIPTION[status]))
 
     print()
     print('done!')
